@@ -158,7 +158,11 @@ func c1Namespaces(c *Ctx, rule string) {
 		var bad []string
 		paths, cutAll := 0, 0
 		und := ""
-		for _, o := range []int64{0, 1} {
+		entries := []int64{0, 1}
+		if Thorough {
+			entries = []int64{0, 1, 2}
+		}
+		for _, o := range entries {
 			cut := 0
 			seqs, trunc := ConcPaths(fn, ConcCfg{
 				MaxIter: 3, Cut: &cut, Prune: true, MaxStates: 400000,
